@@ -159,6 +159,7 @@ def ty_range(t):
 
 SEQ_ADTS = ("std::vec::Vec", "bytes::Bytes", "std::collections::VecDeque", "alloc::vec::Vec", "bytes::bytes::Bytes")
 MAXLEN = (1 << 63) - 1
+ALLOC_MAX = 1 << 32     # element-count bound demanded of a value-sized allocation (the largest legitimate one is a reassembly buffer of 1_000_000 slices * SLICE_SIZE = 1.2e9 bytes)
 
 class Engine:
     def __init__(self, facts, hostile_len=65535, verbose=False):
